@@ -12,6 +12,7 @@ import (
 	"math/rand"
 	"os"
 	"os/exec"
+	"runtime/debug"
 	"sort"
 	"strings"
 	"sync"
@@ -250,4 +251,32 @@ func loadReplay(path string, into interface{}) error {
 		return json.Unmarshal(wrap.Replay, into)
 	}
 	return json.Unmarshal(b, into)
+}
+
+// panicBox collects a panic raised in a goroutine that calls the library (a panic in any goroutine would
+// otherwise kill the harness and lose the case that provoked it).
+type panicBox struct {
+	mu  sync.Mutex
+	msg string
+}
+
+// guard must be deferred directly: defer pb.guard()
+func (b *panicBox) guard() {
+	if r := recover(); r != nil {
+		st := string(debug.Stack())
+		if len(st) > 1500 {
+			st = st[:1500]
+		}
+		b.mu.Lock()
+		if b.msg == "" {
+			b.msg = fmt.Sprintf("%v\n%s", r, st)
+		}
+		b.mu.Unlock()
+	}
+}
+
+func (b *panicBox) get() string {
+	b.mu.Lock()
+	defer b.mu.Unlock()
+	return b.msg
 }
